@@ -246,8 +246,12 @@ func (k Key) Expires() time.Time {
 // SetExpires sets the expiration date for the key.
 func (k Key) SetExpires(value time.Time) {
 	expire := value.Unix()
-	if expire > 0 {
-		expire = expire - timeOffset
+	if expire != 0 {
+		// Dates before the beginning of time of the key format have already expired, make sure
+		// they do not wrap around to a date in the future (zero means the key never expires).
+		if expire = expire - timeOffset; expire <= 0 {
+			expire = 1
+		}
 	}
 	k[20] = byte(uint32(expire) >> 24)
 	k[21] = byte(uint32(expire) >> 16)
